@@ -13,6 +13,7 @@ type Finding struct {
 	Status     string `json:"status"` // open | fixed
 	Commit     string `json:"commit,omitempty"`
 	Input      string `json:"input,omitempty"`
+	Class      string `json:"class,omitempty"` // contract expression over the function's parameters: the recorded failing input class
 }
 
 type KnownFindings struct {
